@@ -1631,6 +1631,13 @@ def f_non_utf8():
     return _script("C12_non_utf8.py")
 
 
+@finding("C13/no-yield/queue-backlog", "C13")
+def f_consumer_no_yield():
+    """a backlog of queued frames (built up while one callback waited) was delivered by the queue consumer without ever suspending: a
+    heartbeat task got one turn while 100 000 frames were delivered"""
+    return _script("C13_consumer_no_yield.py")
+
+
 def run(keys=None):
     out = {}
     for k, (prop, fn) in FINDINGS.items():
